@@ -829,7 +829,8 @@ func normalizeValue(
 			return newUint(ctx, opts.meta, uint64(i)), nil
 		}
 		return newInt(ctx, opts.meta, i), nil
-	case reflect.Uint, reflect.Uint8, reflect.Uint16, reflect.Uint32, reflect.Uint64:
+	case reflect.Uint, reflect.Uint8, reflect.Uint16, reflect.Uint32, reflect.Uint64, reflect.Uintptr:
+		// (Unpack accepts uintptr targets like the other unsigned kinds)
 		return newUint(ctx, opts.meta, v.Uint()), nil
 	case reflect.Float32, reflect.Float64:
 		f := v.Float()
@@ -850,8 +851,13 @@ func normalizeValue(
 
 		return normalizeStructValue(opts, ctx, v)
 	default:
-		if v.IsNil() {
-			return &cfgNil{cfgPrimitive{ctx, opts.meta}}, nil
+		switch v.Kind() {
+		case reflect.Chan, reflect.Func, reflect.Interface, reflect.Ptr, reflect.UnsafePointer:
+			// only these can be asked for nil (complex numbers and whatever
+			// else ends up here can not: unsupported, not a panic)
+			if v.IsNil() {
+				return &cfgNil{cfgPrimitive{ctx, opts.meta}}, nil
+			}
 		}
 		return nil, raiseUnsupportedInputType(ctx, opts.meta, v)
 	}
